@@ -122,6 +122,13 @@ func H_c01_dispatch_lazy() {
 	}
 	rid := nondet_u32("rid")
 	A.Tasks = append(A.Tasks, Job{RequestID: rid, Command: cmd})
+	// commands with many length-prefixed fields / sub-commands get the small length alphabet
+	parser.VerifLazySetLens([]int{0, 1, 2, 40})
+	for _, heavy := range []int{3, 4, 7, 15, 20, 23, 27} {
+		if ci == heavy {
+			parser.VerifLazySetLens([]int{0, 2})
+		}
+	}
 	A.TaskDispatch(rid, cmd, parser.NewParser(parser.VerifLazyBuffer()), ts)
 	verif_no_locks_held("TaskDispatch returns with no agent mutex held")
 	verif_witness()
